@@ -190,7 +190,7 @@ func restoreSigFor(j restoreJob, o restoreObs, what string) string {
 	if o.Res != "CRASH" {
 		return restoreSig(j.mut, what)
 	}
-	if j.mut.Kind == "trunc" && j.mut.File < len(j.plan) && strings.Contains(o.Err, "ltx.(*Decoder).Close") && strings.Contains(o.Err, "slice bounds out of range") {
+	if (j.mut.Kind == "trunc" || j.mut.Kind == "disk-trunc") && j.mut.File < len(j.plan) && strings.Contains(o.Err, "ltx.(*Decoder).Close") && strings.Contains(o.Err, "slice bounds out of range") {
 		if b, err := readPlanFile(j.env, j.plan[j.mut.File]); err == nil {
 			if end := pageBlockEnd(b); end >= 0 && j.mut.Off >= end && j.mut.Off < end+ltx.ChecksumSize {
 				return "C10/restore-trunc-lt8-after-pageblock-crash"
@@ -345,7 +345,7 @@ func judgeRestore(res *hx.Result, o restoreOut) bool {
 	// A flipped byte inside an LZ4 block can decode to the very same page (the CRC-64 is over the
 	// decoded pages): the checksum is abstract in the model, so for flips the model allows both
 	// "rejected" and "immaterial"; the oracle above still demands byte-identical output.
-	if j.mut.Kind == "flip" && o.obs.Res == "ok" && !hx.Differs(o.obs.canon(), o.modelAlt) {
+	if (j.mut.Kind == "flip" || j.mut.Kind == "disk-flip") && o.obs.Res == "ok" && !hx.Differs(o.obs.canon(), o.modelAlt) {
 		res.Count("restore/flip-immaterial(identical output)")
 	} else if o.obs.Res != "CRASH" && hx.Differs(o.obs.canon(), o.model) {
 		bad = true
@@ -453,6 +453,51 @@ func jobsFor(r *hx.Rand, env *replicaEnv, h HistSpec, scratch string, all bool, 
 				j.want = nil
 			} else {
 				j.want = w
+			}
+		})
+		// ON-DISK stream: the same single corruptions applied physically to a copy of the replica directory,
+		// restored through the plain file client — the real backend's listing / stat / open code sees them.
+		// A file that is PRESENT with 0 bytes (or is a directory) counts as damaged: error expected.
+		dset := map[int]bool{0: true, 1: true, ltx.HeaderSize - 1: true, ltx.HeaderSize: true}
+		for _, o := range interestingOffsets(b) {
+			dset[o] = true
+		}
+		nd := 10
+		if all {
+			nd = 300
+		}
+		for k := 0; k < nd; k++ {
+			dset[r.Intn(len(b))] = true
+		}
+		var doffs []int
+		for o := range dset {
+			if o < len(b) {
+				doffs = append(doffs, o)
+			}
+		}
+		sort.Ints(doffs)
+		for _, o := range doffs {
+			o := o
+			add(Mut{Kind: "disk-trunc", File: fi, Off: o}, func(j *restoreJob) {
+				j.corrupt = true
+				j.sizes = o >= ltx.HeaderSize
+			})
+			mask := 1 + r.Intn(255)
+			if bombs[o] {
+				mask = 1
+			}
+			add(Mut{Kind: "disk-flip", File: fi, Off: o, Mask: mask}, func(j *restoreJob) { j.corrupt = true })
+		}
+		add(Mut{Kind: "disk-dir", File: fi}, func(j *restoreJob) { j.corrupt = true })
+		add(Mut{Kind: "disk-delete", File: fi}, func(j *restoreJob) {
+			if perr != nil {
+				j.failStep = "calcPlan"
+				return
+			}
+			if w, err := pristineRestore(env, filepath.Join(scratch, "pristine"), np[len(np)-1].MaxTXID); err == nil {
+				j.want = w
+			} else {
+				j.want = nil
 			}
 		})
 		// read-fault schedules, below and beyond the retry budget
@@ -587,7 +632,7 @@ func main() {
 		// fault-schedule jobs sleep in the reader's backoff: run them wide
 		var fast, slow []restoreJob
 		for _, j := range jobs {
-			if j.mut.Kind == "readfault" {
+			if j.mut.Kind == "readfault" || j.mut.Kind == "disk-dir" {
 				slow = append(slow, j)
 			} else {
 				fast = append(fast, j)
@@ -682,9 +727,9 @@ func runPayload(res *hx.Result, drv *hx.Driver, p *Payload, scratch string) bool
 		j.mut = m
 		j.failStep, j.faults, j.corrupt, j.sizes = "-", 0, false, true
 		switch m.Kind {
-		case "trunc":
+		case "trunc", "disk-trunc":
 			j.corrupt, j.sizes = true, m.Off >= ltx.HeaderSize
-		case "flip":
+		case "flip", "disk-flip", "disk-dir":
 			j.corrupt = true
 		case "readfault":
 			j.faults = len(m.Faults)
